@@ -8,15 +8,18 @@ from ..core import Verdict, close
 from . import c10_formula as F10
 
 ID = "C11"
-RULE = ("Mixtures of 1-6 distinct substances (curated formulas plus generated ones) with positive proportions in "
-        "[1e-3,1e3], both normalisation modes, dict and '<...>' string construction, both isotope modes, optionally "
-        "followed by add() of an existing or new component, k*material, or material+material with a shared component. "
-        "Oracle: closed forms with component masses from the independent formula expansion of C10: number mode "
-        "x=p/sum p, X=p m/sum p m; mass mode X=p/sum p, x=(p/m)/sum(p/m); 'sum' row = 100; scaling all p by c changes "
-        "nothing; the material rebuilt from its reported X in mass mode reports the same x and X. Same for "
-        "Substance.data_composite with atom counts. Non-trivial: >=2 components with distinct masses. "
-        "Round 4: amounts in exponent notation, nucleons, Substance(proportion=p) alone and added to a Material. "
-        "Distinct = distinct case JSON.")
+RULE = (
+    'Mixtures of 1-6 distinct substances (curated formulas plus generated ones) with positive proportions in '
+    "[1e-3,1e3], both normalisation modes, dict and '<...>' string construction, both isotope modes, optionally "
+    'followed by add() of an existing or new component, k*material, or material+material with a shared component. '
+    'Oracle: closed forms with component masses from the independent formula expansion of C10: number mode '
+    "x=p/sum p, X=p m/sum p m; mass mode X=p/sum p, x=(p/m)/sum(p/m); 'sum' row = 100; scaling all p by c changes "
+    'nothing; the material rebuilt from its reported X in mass mode reports the same x and X. Same for '
+    'Substance.data_composite with atom counts. Non-trivial: >=2 components with distinct masses. Round 4: '
+    'amounts in exponent notation, nucleons, Substance(proportion=p) alone and added to a Material. Later rounds: '
+    'operands re-read after a sum; augmented sums (total += part); substances added to materials. Distinct = '
+    'distinct case JSON.'
+)
 ASSUMPTIONS = ["relative tolerance 1e-9 on fractions", "proportions are written with at most 6 significant decimal digits"]
 NT_FLOOR = 0.4
 
